@@ -1,14 +1,28 @@
 #!/bin/sh
 # usage: sh tools_seeded_all.sh [ids...]
-# Runs the owning quick check against every seeded change (PYTHONPATH-shadowed
-# scratch copy of /repo's pymap) and prints one verdict line per change.
+# Runs, against every seeded change (PYTHONPATH-shadowed scratch copy of
+# /repo's pymap), the quick check(s) that meta.json names as catching it
+# (the Cnn ids in "caught_by" before any " -- " remark; the owning check if
+# there is none) and prints one verdict line per change.
 ids=${*:-$(ls /verif/seeded)}
 for id in $ids; do
   p=$(echo $id | cut -d- -f1)
-  out=$(sh /verif/tools_seeded.sh $id $p 2>&1)
+  checks=$(python3 - "$id" "$p" <<'PY'
+import json,re,sys
+m=json.load(open('/verif/seeded/%s/meta.json'%sys.argv[1]))
+head=m.get('caught_by','').split(' -- ')[0]
+if 'NEUTRALISED' in head: print('NEUTRALISED'); sys.exit()
+c=[]
+for x in re.findall(r'\bC\d\d\b', head):
+    if x not in c: c.append(x)
+print(' '.join(c[:2]) or sys.argv[2])
+PY
+)
+  if [ "$checks" = "NEUTRALISED" ]; then echo "$id NEUTRALISED (see meta.json)"; continue; fi
+  out=$(sh /verif/tools_seeded.sh $id "$checks" 2>&1)
   if echo "$out" | grep -q "FAILED\|rejects"; then v=APPLY-FAILED
   elif echo "$out" | grep -q "mechanism="; then v=CAUGHT
   else v=MISSED; fi
-  echo "$id $v $(echo "$out" | grep -o 'violations=[0-9]*' | head -1) $(echo "$out" | grep -o 'mechanism=[^ ]*' | head -2 | tr '\n' ' ')"
+  echo "$id $v [$checks] $(echo "$out" | grep -o 'violations=[0-9]*' | head -1) $(echo "$out" | grep -o 'mechanism=[^ ]*' | head -2 | tr '\n' ' ')"
 done
 echo SEEDED-ALL-DONE
